@@ -360,6 +360,53 @@ def make_spec(route: str, code: int, pcache):
     return {"str": f"EPSG:{code}", "lower": f"epsg:{code}", "int": code}[route]
 
 
+AUTH_CODES = ["ESRI:54009", "ESRI:54030", "ESRI:102001", "ESRI:53004", "OGC:CRS84", "OGC:CRS27", "IGNF:LAMB93", "ESRI:102033"]
+AUTH_SCRIPT = r'''
+import sys, json, warnings
+warnings.filterwarnings("ignore")
+from dask.base import tokenize
+from odc.geo.crs import CRS
+out = {}
+for spec in json.loads(sys.argv[1]):
+    try:
+        c = CRS(spec)
+        out[spec] = [str(c), hash(c), tokenize(c)]
+    except Exception as e:
+        out[spec] = ["ERR " + type(e).__name__]
+print("@@" + json.dumps(out))
+'''
+
+
+def authority_case(mon: Monitor, rng: random.Random) -> None:
+    """Codes of authorities other than EPSG, written with the authority in upper, lower or mixed case: each spelling built here - after its siblings, in a seeded order -
+    must have the string form, hash and token it has in an interpreter that never saw the siblings."""
+    from odc.geo.crs import CRS
+
+    variants = {c: [c, c.lower(), c.split(":")[0].capitalize() + ":" + c.split(":")[1]] for c in AUTH_CODES}
+    ref = {}
+    for k in range(3):  # one fresh interpreter per spelling family: no sibling is ever built there
+        specs = [v[k] for v in variants.values()]
+        p = subprocess.run([sys.executable, "-c", AUTH_SCRIPT, json.dumps(specs)], env=dict(os.environ), capture_output=True, text=True, timeout=600, cwd=str(ROOT))
+        line = [l for l in p.stdout.splitlines() if l.startswith("@@")]
+        if p.returncode != 0 or not line:
+            return mon.error("CRS.authority-case", f"pristine interpreter failed: {p.stderr[-300:]}")
+        ref.update(json.loads(line[0][2:]))
+    for code, vs in variants.items():
+        order = list(vs)
+        rng.shuffle(order)
+        for n, spec in enumerate(order):
+            want = ref.get(spec)
+            c, e = call(CRS, spec)
+            if want is None or want[0].startswith("ERR") or e is not None:
+                mon.skip("CRS.authority-case", "specification not accepted (same in the pristine interpreter)" if (want and want[0].startswith("ERR") and e is not None) else "no reference")
+                if e is not None and want and not want[0].startswith("ERR"):
+                    mon.fail("CRS.authority-case", {"spec": spec, "built_after": order[:n], "exc": e}, key="crs-history-dependent")
+                continue
+            got = [str(c), hash(c), tok(c)]
+            mon.check(got == want, "CRS.authority-case", lambda: {"spec": spec, "built_after": order[:n], "str_hash_token_here": got, "in_a_fresh_interpreter": want}, key="crs-history-dependent",
+                      cls="first" if n == 0 else "after-sibling", sig=hsig("auth", spec, tuple(order[:n])))
+
+
 COLLIDING = {"wkt", "pyproj"}
 SEEN = {}  # code -> routes constructed so far in this process (the CRS cache is process global)
 
@@ -633,6 +680,12 @@ def run(mon: Monitor, tier: str, seed: int, shard: int, nshards: int) -> None:
     ref = pristine(codes)
     mon.notes["epsg_pool"] = len(codes)
     check_routes(mon, codes[: (60 if q else 300)])
+    mon.case = {"kind": "authority-case"}
+    try:
+        authority_case(mon, rng)
+    except Exception as e:
+        mon.error("CRS.authority-case", e)
+    mon.case = None
     from odc.geo import crs as C
 
     attach(C, "_make_crs_transform", post=post_transform, on_error=_err, label="_make_crs_transform")
@@ -656,7 +709,7 @@ def run(mon: Monitor, tier: str, seed: int, shard: int, nshards: int) -> None:
         mon.floor(f"{name}.readonly-use", 10)
         mon.floor(f"{name}.travel", 8 if name != "GCPGeoBox" else 2)
     for pt, n in [("CRS.routes", 500), ("history", 300), ("transformer-cache", 100), ("transformer-cache|always_xy|lookalike", 20), ("GeoBox.eq-hash", 3), ("BoundingBox.eq-hash", 3), ("XY.eq-hash", 3), ("CRS.eq-hash", 3),
-                  ("history|after-colliding-route|wkt", 1), ("history|after-colliding-route|pyproj", 1), ("CRS.routes|wkt~pyproj", 10), ("CRS.routes|int~json", 10)]:
+                  ("history|after-colliding-route|wkt", 1), ("history|after-colliding-route|pyproj", 1), ("CRS.routes|wkt~pyproj", 10), ("CRS.routes|int~json", 10), ("CRS.authority-case|after-sibling", 8)]:
         mon.floor(pt, n)
 
 
